@@ -447,9 +447,11 @@ def _tear_points(case, n):
     return [k for k in case["tears"] if 0 <= k < n]
 
 
-def _flips(case):
+def _flips(case, n):
     f = case.get("flips", "all")
     if f == "all":
+        if n > BIG:     # every claimed flip, two of the unclaimed ones (each accepted flip costs a full decode)
+            return [[0, b] for b in (0, 4, 5, 6, 7)] + [[1, 7]] + [[i, b] for i in range(2, 6) for b in range(8)]
         return [[i, b] for i in range(6) for b in range(8)]
     return f
 
@@ -483,7 +485,7 @@ def observe(case):
     obs["tears"] = {"points": "all" if pts == list(range(n)) else pts, "not_rejected": bad}
     obs["suffixes"] = [_decode(rec + _unspec(s))[0] for s in case.get("suffixes", [])]
     fl = []
-    for i, b in _flips(case):
+    for i, b in _flips(case, n):
         if i < n:
             m = bytearray(rec)
             m[i] ^= 1 << b
@@ -682,7 +684,7 @@ def to_coq(case, obs):
     row_term = "(%s : list mval)" % L.lst(_coq_val(t) for t in case["row"])
     ts = L.N(case["ts"])
     if obs["enc"][0] != "ok":
-        return ("row", "(%s, %s, ERaise %s, ORaise OtherError, [])" % (ts, row_term, _coq_exn(obs["enc"][1])))
+        return ("row", "((%s, %s, ERaise %s, ORaise OtherError, []) : row_case)" % (ts, row_term, _coq_exn(obs["enc"][1])))
     rec = _unspec(obs["enc"][1])
     lit = _coq_bytes(rec)
     enc = "EBytes %s" % lit if lit is not None else "EHash %s %s" % (L.N(len(rec)), L.N(_digest(rec)))
@@ -715,7 +717,7 @@ def to_coq(case, obs):
         oc = _coq_outcome(o, dec)
         if oc is not None:
             muts.append("(Flip %s %s, %s)" % (L.N(i), L.N(b), oc))
-    return ("row", "(%s, %s, %s, %s, %s)" % (ts, row_term, enc, dec, L.lst(muts)))
+    return ("row", "((%s, %s, %s, %s, %s) : row_case)" % (ts, row_term, enc, dec, L.lst(muts)))
 
 
 def _model_skips_raw(data, obs):
@@ -1102,7 +1104,6 @@ def corpus():
         yield one(["s", s.encode().hex()])
     for w in (15, 16, 17):
         yield {"kind": "row", "ts": 2**64 - 1, "row": [["i", i] for i in range(w)], "tears": "all", "suffixes": ["c0"], "flips": "all"}
-    yield {"kind": "row", "ts": 5, "row": [["ra", 65535, ["n"]], ["ra", 65536, ["n"]]], "tears": "all", "suffixes": ["c0"], "flips": "all"}
     # all value kinds, three container levels below the row
     yield _row_case(rng, NESTED_ROW, TS_DEFAULT)
     # the reserved form: top level is rewritten, nested is not
